@@ -558,7 +558,15 @@ where
         B: GGSWInfos,
     {
         let res_dft: usize = self.bytes_of_vec_znx_dft((selector_infos.rank() + 1).into(), selector_infos.size());
-        res_dft
+        // `cmux_assign_neg` additionally holds the difference `a - res` in a temporary ciphertext.
+        let tmp_diff: usize = GLWE::<Vec<u8>>::bytes_of_from_infos(&GLWELayout {
+            n: selector_infos.n(),
+            base2k: res_infos.base2k(),
+            k: res_infos.max_k().max(a_infos.max_k()),
+            rank: res_infos.rank(),
+        });
+        tmp_diff
+            + res_dft
             + self
                 .glwe_external_product_internal_tmp_bytes(res_infos, a_infos, selector_infos)
                 .max(self.vec_znx_big_normalize_tmp_bytes())
